@@ -96,6 +96,11 @@ type absScenario struct {
 	// origin (set by the evaluator): maps a parameter of a helper that is being walked into to the value the caller
 	// passed, transitively — atom recognisers use it to see through helpers (nil outside an evaluation: identity)
 	origin func(v ssa.Value) ssa.Value
+	// entry: start the walk at this block instead of the function's entry (one loop iteration under assumptions);
+	// stopAt: reaching this block ends the path — onStop decides whether that counts as reaching the goal
+	entry  *ssa.BasicBlock
+	stopAt func(b *ssa.BasicBlock) bool
+	onStop func(state map[string]absVal) bool
 	// noInline: calls of these functions are atomic events for the scenario (never walked into)
 	noInline func(callee *ssa.Function) bool
 	// onStore may refine the value recorded for a tracked field (e.g. "a stored parameter type is non-nil").
@@ -175,6 +180,8 @@ type absEval struct {
 	budget     *int
 	relevant   map[*ssa.Function]bool
 	origins    map[*ssa.Parameter]ssa.Value
+	entry      *ssa.BasicBlock
+	stopped    bool
 }
 
 func (e *absEval) originOf(v ssa.Value) ssa.Value {
@@ -521,6 +528,7 @@ func absReachN(fn *ssa.Function, sc *absScenario, goal func(ret *ssa.Return, eva
 		start.state[k] = v
 	}
 	var found *ssa.Return
+	e.entry = sc.entry
 	e.explore(start, func(ret *ssa.Return, path *absPath) bool {
 		if goal(ret, func(v ssa.Value) absVal { return e.eval(v, path, 0) }, path.state) {
 			found = ret
@@ -528,6 +536,15 @@ func absReachN(fn *ssa.Function, sc *absScenario, goal func(ret *ssa.Return, eva
 		}
 		return false
 	})
+	if found == nil && e.stopped {
+		for _, blk := range fn.Blocks {
+			for _, in := range blk.Instrs {
+				if ret, ok := in.(*ssa.Return); ok {
+					return ret
+				}
+			}
+		}
+	}
 	if found == nil && e.incomplete {
 		// the search was cut off: nothing can be claimed unreachable — report the first return as reachable
 		for _, blk := range fn.Blocks {
@@ -719,6 +736,13 @@ func (e *absEval) explore(start *absPath, onReturn func(ret *ssa.Return, path *a
 			e.incomplete = true
 			return
 		}
+		if from == 0 && prev != nil && sc.stopAt != nil && len(e.stack) == 1 && sc.stopAt(b) {
+			if sc.onStop != nil && sc.onStop(path.state) {
+				e.stopped = true
+				stop = true
+			}
+			return
+		}
 		if from == 0 {
 			// the instructions of this block are about to be executed (again): what an earlier
 			// iteration learned about their values no longer applies
@@ -871,6 +895,10 @@ func (e *absEval) explore(start *absPath, onReturn func(ret *ssa.Return, path *a
 				return
 			}
 		}
+	}
+	if e.entry != nil && len(e.stack) == 1 {
+		walk(e.entry, 0, nil, start)
+		return
 	}
 	walk(e.fn.Blocks[0], 0, nil, start)
 }
@@ -1106,4 +1134,19 @@ func parseResultTable(p *Prog, r *Report, fi *FuncInfo) {
 			r.OK(site, p.PosStr(fi.Decl.Pos()), "no success return reachable while UpdateTarget is still false")
 		}
 	}
+}
+
+// loopBodyOf returns the entry block of the innermost loop body that contains (dominates) the instruction, and the
+// loop header it returns to.
+func loopBodyOf(in ssa.Instruction) (body, header *ssa.BasicBlock) {
+	for d := in.Block(); d != nil; d = d.Idom() {
+		if strings.HasSuffix(d.Comment, ".body") {
+			for _, p := range d.Preds {
+				if strings.HasSuffix(p.Comment, ".loop") {
+					return d, p
+				}
+			}
+		}
+	}
+	return nil, nil
 }
